@@ -15,7 +15,10 @@ type st = {
 let empty_root : Spec.bucket = (BinNums.N0, [])
 
 let run mode file =
-  let spec = (mode = "c04") in
+  let spec = (mode = "c04" || mode = "c08") in
+  let acct = (mode = "c07" || mode = "c08") in
+  let meta_written = ref false and fail_after_meta = ref false and fail_kind = ref "" in
+  let d5 = ref false and unmapped = ref false in
   let last_dump = ref "" in
   let ic = open_in file in
   let cases = ref 0 and ops = ref 0 and mism = ref 0 and pfail = ref 0 and imgs = ref 0 in
@@ -29,10 +32,12 @@ let run mode file =
   let mismatch what i m =
     if not !dead then begin
       incr mism; dead := true;
-      Printf.printf "MISMATCH case=%s op=%d (%s) what=%s impl=%s model=%s\n" !case_id !opidx (cut (String.concat " " !cur)) what (cut i) (cut m) end in
+      Printf.printf "MISMATCH case=%s op=%d (%s) what=%s%s impl=%s model=%s\n" !case_id !opidx (cut (String.concat " " !cur)) what
+        (if !d5 then " sig=d5 " else "") (cut i) (cut m) end in
   let propfail rule detail =
     incr pfail;
-    Printf.printf "PROPFAIL case=%s op=%d (%s) rule=%s %s\n" !case_id !opidx (cut (String.concat " " !cur)) rule (cut detail) in
+    Printf.printf "PROPFAIL case=%s op=%d (%s) rule=%s%s %s\n" !case_id !opidx (cut (String.concat " " !cur)) rule
+      (if !d5 then " sig=d5 " else "") (cut detail) in
   let expect res want what = if res <> want then mismatch what res want in
   let tx_root ref_ =
     if ref_ = "w" then s.work
@@ -42,8 +47,12 @@ let run mode file =
     match split_ws line with
     | "case" :: id :: _ ->
       incr cases; case_id := id; opidx := 0; Buffer.clear optext; flags := []; dead := false;
-      s.committed <- empty_root; s.work <- None; Hashtbl.reset s.readers; s.stale <- false
+      s.committed <- empty_root; s.work <- None; Hashtbl.reset s.readers; s.stale <- false; d5 := false; unmapped := false
+    | "io" :: kind :: off :: _ :: rest ->
+      if rest = ["FAIL"] then (fail_kind := kind; fail_after_meta := !meta_written)
+      else if kind = "write" && int_of_string off < 2 * s.ps then meta_written := true
     | "o" :: rest -> cur := rest; incr opidx;
+      (match rest with ["beginw"] | "commitfail" :: _ | ["commit"] -> (match rest with ["beginw"] -> () | _ -> meta_written := false; fail_kind := "") | _ -> ());
       (match rest with "img" :: _ -> () | _ -> Buffer.add_string optext (String.concat " " rest); Buffer.add_char optext '\n')
     | "r" :: res when not !dead ->
       incr ops;
@@ -60,11 +69,18 @@ let run mode file =
          List.iter (fun f -> match String.split_on_char '=' f with
            | ["ps"; v] -> s.ps <- int_of_string v | ["nfs"; v] -> s.nfs <- v <> "0" | _ -> ()) fields;
          expect res_s "ok" "open"
-       | ["close"] -> bump "close"; s.work <- None; Hashtbl.reset s.readers; expect res_s "ok" "close"
-       | ["beginw"] -> bump "beginw"; s.work <- Some s.committed;
-         (match res with "ok" :: _ -> () | _ -> mismatch "beginw" res_s "ok")
-       | ["beginr"; id] -> bump "beginr"; Hashtbl.replace s.readers (int_of_string id) s.committed; flag "reader";
-         (match res with "ok" :: _ -> () | _ -> mismatch "beginr" res_s "ok")
+       | ["close"] -> bump "close"; s.work <- None; Hashtbl.reset s.readers; unmapped := false; expect res_s "ok" "close"
+       | ["beginw"] -> bump "beginw";
+         (match res with
+          | "ok" :: _ -> s.work <- Some s.committed
+          | ["EInvalidMapping"] when !unmapped -> flag "unmapped-begin-refused"     (* not blocking: refused promptly until reopen *)
+          | ["hang"] -> propfail "next_writer_blocks" "Begin(true) did not return"; dead := true
+          | _ -> mismatch "beginw" res_s "ok")
+       | ["beginr"; id] -> bump "beginr";
+         (match res with
+          | "ok" :: _ -> Hashtbl.replace s.readers (int_of_string id) s.committed; flag "reader"
+          | ["EInvalidMapping"] when !unmapped -> ()
+          | _ -> mismatch "beginr" res_s "ok")
        | ["endr"; id] -> bump "endr";
          let had = Hashtbl.mem s.readers (int_of_string id) in
          Hashtbl.remove s.readers (int_of_string id); expect res_s (if had then "ok" else "notx") "endr"
@@ -80,6 +96,27 @@ let run mode file =
                  (String.split_on_char ',' (String.sub bc 15 (String.length bc - 15)))
              | _ -> mismatch "commit" res_s "ok")
           | None -> expect res_s "notx" "commit")
+       | ["commitfail"; _] -> bump "commitfail";
+         (match s.work with
+          | None -> expect res_s "notx" "commitfail"
+          | Some w ->
+            if snd w <> [] then s.stale <- true;
+            s.work <- None;
+            List.iter (fun f -> if String.length f > 15 && String.sub f 0 15 = "blocked-closed=" then
+              List.iter (fun id -> Hashtbl.remove s.readers (int_of_string id)) (String.split_on_char ',' (String.sub f 15 (String.length f - 15)))) res;
+            (match res with
+             | "ok" :: _ -> s.committed <- w; flag "fault-beyond-last-call"
+             | "hang" :: _ -> propfail "commit_returns" "Commit did not return"; dead := true
+             | e :: _ when String.length e > 0 && e.[0] = 'E' ->
+               flag ("fault-" ^ !fail_kind);
+               if !fail_kind = "mmap" then unmapped := true;
+               if !fail_after_meta then begin
+                 (* the one exception: the final sync failed after the meta page was written - the transaction is
+                    entirely present, in memory and (page cache) on disk *)
+                 s.committed <- w; flag "fault-final-sync";
+                 if Hashtbl.length s.readers > 0 then d5 := true
+               end
+             | _ -> mismatch "commitfail" res_s "error"))
        | ["rollback"] -> bump "rollback"; flag "rollback";
          (match s.work with
           | Some w -> if snd w <> [] then s.stale <- true; s.work <- None; expect res_s "ok" "rollback"
@@ -88,6 +125,7 @@ let run mode file =
          (match tx_root r with
           | Some root -> expect res_s ("ok " ^ digest_or_text (dump_root root)) "dump"
           | None -> expect res_s "notx" "dump")
+       | ["check"; r] when spec && tx_root r = None -> expect res_s "notx" "check"
        | ["check"; _] -> bump "check";
          if mode <> "c12" then (match res with "ok" :: "0" :: _ -> () | "ok" :: n :: first :: _ -> propfail "tx_check_clean" (n ^ " problems, first: " ^ first) | _ -> mismatch "check" res_s "ok 0")
        | "stale" :: api :: _ -> bump ("stale-" ^ api); flag "err-ETxClosed";
@@ -108,7 +146,7 @@ let run mode file =
                  if dtxt <> !last_dump then propfail "decoded_content" (Printf.sprintf "decoder=%s api=%s" (cut dtxt) (cut !last_dump));
                  flag "img"
                end;
-               if mode = "c07" then begin
+               if acct then begin
                (* C07: accounting *)
                let mark = int_of_n v.Layout.v_meta.Layout.m_mark in
                ignore len;
